@@ -3,7 +3,8 @@
   request is cut into TCP segments after its signature; the observation for segment `k` carries the
   CUMULATIVE byte stream of the flow so far and the reply to segment `k`.  From C11
   (`http_seg_indep_partial`): that reply is the reply the unsegmented cumulative stream gets as first
-  segment of a fresh flow.
+  segment of a fresh flow — up to and including the first answered segment (afterwards the parser starts
+  over and the harness no longer judges the flow in this mode).
 -/
 import Masscanned.Proofs.J3.Reply
 import Masscanned.Thm.C11
@@ -33,22 +34,30 @@ theorem feed_take (cfg : Cfg) (env : Env) (ci : ClientInfo) : ∀ (all : List By
       simp only [ht'', hrs, List.take_succ_cons]
 
 /-- the reply to segment `k` of a flow whose first segment contains the HTTP signature is the reply of the
-    unsegmented cumulative stream -/
+    unsegmented cumulative stream — AS LONG AS NO EARLIER SEGMENT HAS BEEN ANSWERED (`hprev`): `http::repl`
+    resets the stored parser state after a reply, the segments after the answered one belong to the next
+    request (`C11.http_later_segments_not_repeated`; the harness stops judging the flow in stream mode once
+    it has been answered).  Without `hprev` the statement is false since the repair of `http::repl`:
+    `C13Judge.judgeC13_stream_after_answer_false`. -/
 theorem stream_reply (cfg : Cfg) (env : Env) (ci : ClientInfo) (m : Bytes) (hm : m ∈ httpMethods)
     (a' : Bytes) (segs : List Bytes) (t : Tcb) (rs : List (Option Bytes))
-    (hfeed : feed cfg env ci {} ((m ++ 32 :: 47 :: a') :: segs) = .ok (t, rs)) (k : Nat) (hk : k ≤ segs.length) :
+    (hfeed : feed cfg env ci {} ((m ++ 32 :: 47 :: a') :: segs) = .ok (t, rs)) (k : Nat) (hk : k ≤ segs.length)
+    (hprev : ∀ j, j < k → rs[j]? = some none) :
     ∃ R, unseg cfg env ci (((m ++ 32 :: 47 :: a') :: segs).take (k + 1)).flatten = .ok R ∧ rs[k]? = some R := by
   obtain ⟨t2, rs2, R, hf2, hlen, hun, htrig⟩ := http_seg_indep_partial cfg env ci m hm a' (segs.take k)
   obtain ⟨t'', ht''⟩ := feed_take cfg env ci _ _ _ _ hfeed (k + 1)
   rw [List.take_succ_cons] at ht'' ⊢
   rw [hf2] at ht''
   simp only [Except.ok.injEq, Prod.mk.injEq] at ht''
-  have hrs2 : rs2[k]? = rs[k]? := by
-    rw [ht''.2, List.getElem?_take]; simp
+  have hrs2 : ∀ j, j ≤ k → rs2[j]? = rs[j]? := by
+    intro j hj
+    rw [ht''.2, List.getElem?_take]
+    simp only [ite_eq_left_iff]
+    intro h; omega
   have hl : ((m ++ 32 :: 47 :: a') :: segs.take k).length = k + 1 := by
     simp [List.length_take, Nat.min_eq_left hk]
   refine ⟨R, hun, ?_⟩
-  rw [← hrs2]
+  rw [← hrs2 k (Nat.le_refl _)]
   cases htr : trig cfg env ci ((m ++ 32 :: 47 :: a') :: segs.take k).flatten with
   | none =>
     rw [htr] at htrig
@@ -57,11 +66,16 @@ theorem stream_reply (cfg : Cfg) (env : Env) (ci : ClientInfo) (m : Bytes) (hm :
     exact hall k (by omega)
   | some n =>
     rw [htr] at htrig
-    obtain ⟨_, _, hn, hall⟩ := htrig
-    refine (hall k (by omega)).2 ?_
-    have : endOff ((m ++ 32 :: 47 :: a') :: segs.take k) k = ((m ++ 32 :: 47 :: a') :: segs.take k).flatten.length := by
-      unfold endOff
-      rw [List.take_of_length_le (by omega)]
-    omega
+    obtain ⟨hRne, hpos, hn, hall⟩ := htrig
+    obtain ⟨k', hk', hb, he⟩ := exists_segment _ n hpos hn
+    have hk'R := (hall k' hk').2 hb he
+    by_cases hlt : k' < k
+    · exfalso
+      rw [hrs2 k' (by omega), hprev k' hlt] at hk'R
+      simp only [Option.some.injEq] at hk'R
+      exact hRne hk'R.symm
+    · have : k' = k := by omega
+      subst this
+      exact hk'R
 
 end Masscanned.J3
